@@ -84,6 +84,7 @@ def execute(case):
         if tf is not None:
             prefix = '%s [%d] | ' % (PINNED.strftime(tf), 4242)
         exp_lines = []
+        exp_prefix = []
         small = True
         last1 = _read(fn + '.1') if os.path.exists(fn + '.1') else None
         for op in case["ops"]:
@@ -98,12 +99,22 @@ def execute(case):
             # (what the daemon's redirector always does)
             if len(raw) >= mb or (op[2] != 'b' and not text.isascii()):
                 small = False
-            stream({'data': raw, 'pid': 4242, 'name': 'stdout'})
+            dm = {'data': raw, 'pid': 4242, 'name': 'stdout'}
+            this_prefix = prefix
+            if len(op) > 3 and op[3] is not None:
+                # the data map may carry the time of the output itself
+                dm['timestamp'] = op[3]
+                if tf is not None:
+                    this_prefix = '%s [%d] | ' % (
+                        datetime.fromtimestamp(op[3]).strftime(tf), 4242)
+            stream(dm)
             if tf is None:
                 written = norm(text)
                 history += written
             else:
-                exp_lines.extend(text.rstrip('\n').split('\n'))
+                for ln_ in text.rstrip('\n').split('\n'):
+                    exp_lines.append(ln_)
+                    exp_prefix.append(this_prefix)
             # ---- observe the directory
             names = sorted(os.listdir(d))
             backups = []
@@ -157,13 +168,15 @@ def execute(case):
                 # lines this stream wrote (the tail of length <= exp_lines)
                 mine = got[-len(exp_lines):] if exp_lines else []
                 pre_lines = len(got) - len(mine)
-                bad = [ln for ln in mine if not ln.startswith(prefix)]
+                pfx = exp_prefix[-len(mine):] if mine else []
+                bad = [(ln, px) for ln, px in zip(mine, pfx)
+                       if not ln.startswith(px)]
                 if bad:
                     viols.append(Violation(
-                        'C20:prefix', 'line without "<time> [<pid>] | " '
-                        'prefix: %r' % bad[0]))
+                        'C20:prefix', 'line without its "<time> [<pid>] | " '
+                        'prefix (%r): %r' % (bad[0][1], bad[0][0])))
                 else:
-                    stripped = [ln[len(prefix):] for ln in mine]
+                    stripped = [ln[len(px):] for ln, px in zip(mine, pfx)]
                     if pre_lines == 0 or not mb:
                         want = exp_lines[-len(stripped):] if stripped else []
                         want = [norm(x) for x in want]
@@ -257,7 +270,8 @@ def _strategy():
         rot = draw(st.integers(0, 9)) > 0
         mb = draw(st.integers(1, 64)) if rot else 0
         bc = draw(st.integers(1, 4)) if rot else 0
-        tf = draw(st.sampled_from([None, None, None, '%H:%M', '%Y-%m-%d']))
+        tf = draw(st.sampled_from([None, None, None, '%H:%M', '%Y-%m-%d',
+                                   '%Y/%m/%d %H.%M.%S']))
         encoding = draw(st.sampled_from([None, None, None, 'latin-1']))
         pre = {}
         if draw(st.booleans()):
@@ -292,7 +306,11 @@ def _strategy():
                 text = draw(st.text(chars, min_size=0, max_size=size))
             else:
                 text = draw(st.text(alpha, min_size=size, max_size=size))
-            ops.append(["w", text, form])
+            wop = ["w", text, form]
+            if draw(st.integers(0, 5)) == 0:
+                wop.append(draw(st.sampled_from(
+                    [0.0, 1600000000.25, 1234567890, 86399.999])))
+            ops.append(wop)
         c = {"max_bytes": mb, "backup_count": bc, "time_format": tf,
              "pre": pre or None, "ops": ops}
         if encoding:
